@@ -36,6 +36,82 @@ def deck_box(deck, floor=6.0, cap=400.0):
     return float(min(max(floor, 1.4 * m + 1.0), cap))
 
 
+def _surface_centre(s):
+    k = s['kind'].lower()
+    p = s['params']
+    try:
+        if k == 'so':
+            return [0.0, 0.0, 0.0]
+        if k in ('s', 'sph', 'tx', 'ty', 'tz', 'k/x', 'k/y', 'k/z'):
+            return list(p[:3])
+        if k in ('sx', 'sy', 'sz', 'kx', 'ky', 'kz', 'px', 'py', 'pz'):
+            c = [0.0, 0.0, 0.0]
+            c['xyz'.index(k[1])] = p[0]
+            return c
+        if k in ('c/x', 'c/y', 'c/z'):
+            ax = 'xyz'.index(k[2])
+            c = [0.0, 0.0, 0.0]
+            i, j = [q for q in range(3) if q != ax]
+            c[i], c[j] = p[0], p[1]
+            return c
+        if k in ('cx', 'cy', 'cz'):
+            return [0.0, 0.0, 0.0]
+        if k == 'rpp':
+            return [(p[0] + p[1]) / 2, (p[2] + p[3]) / 2, (p[4] + p[5]) / 2]
+        if k in ('box', 'wed'):
+            return [p[q] + (p[3 + q] + p[6 + q] + p[9 + q]) / 2
+                    for q in range(3)]
+        if k in ('rcc', 'rhp', 'hex', 'rec', 'trc'):
+            return [p[q] + p[3 + q] / 2 for q in range(3)]
+        if k == 'ell':
+            if p[6] > 0:
+                return [(p[q] + p[3 + q]) / 2 for q in range(3)]
+            return list(p[:3])
+        if k == 'sq':
+            return list(p[7:10])
+    except (IndexError, TypeError):
+        return None
+    return None
+
+
+def interest_points(deck, limit=60):
+    """Centres of the surfaces, displacements of every transformation, and
+    their sums: seeds that make small cells (LIKE copies, lattice contents)
+    visible to the sampler."""
+    cen = []
+    for s in deck['surfaces']:
+        c = _surface_centre(s)
+        if c is not None:
+            cen.append(np.array(c, dtype=float))
+    disp = [np.zeros(3)]
+
+    def add_ref(ref):
+        if ref is None:
+            return
+        if 'inline' in ref:
+            disp.append(np.array(ref['inline']['o'], dtype=float))
+    for t in deck['transforms']:
+        disp.append(np.array(t['spec']['o'], dtype=float))
+    for c in deck['cells']:
+        add_ref(c.get('trcl'))
+        if c.get('fill'):
+            add_ref(c['fill'].get('tr'))
+        lk = c.get('like')
+        if lk:
+            add_ref(lk['but'].get('trcl'))
+            if lk['but'].get('fill'):
+                add_ref(lk['but']['fill'].get('tr'))
+    pts = []
+    for dv in disp:
+        pts.append(dv)
+        for c in cen:
+            pts.append(c + dv)
+    if len(pts) > limit:
+        step = len(pts) / float(limit)
+        pts = [pts[int(q * step)] for q in range(limit)]
+    return np.array(pts, dtype=float).reshape(-1, 3)
+
+
 class KeyMap:
     def __init__(self):
         self.d = {}
@@ -62,6 +138,11 @@ def make_points(locator, seed, n, box, extra=None, bisect_steps=11,
     U = rng.uniform(-box, box, (n_uni, 3))
     # concentrate a part of the uniform points near the centre
     U[: n_uni // 3] *= 0.4
+    if extra is None and locator is not None:
+        ip = interest_points(locator.deck)
+        if len(ip):
+            extra = np.vstack([ip + rng.normal(0.0, 0.25, ip.shape),
+                               ip + rng.normal(0.0, 0.6, ip.shape)])
     if extra is not None and len(extra):
         U = np.vstack([U, np.asarray(extra, dtype=float).reshape(-1, 3)])
     if key_fn is None:
